@@ -43,12 +43,18 @@ func (p *Program) Flatten(f *Func) *Func {
 		return ff
 	}
 	fl := &flattener{p: p, info: f.Info(), pkg: f.Pkg.Types, stack: map[*Func]bool{f: true}, count: map[*Func]int{}, inlined: map[*Func]bool{}}
+	// the several returns behind a single-exit spelling (see tailReturns)
+	body0, tch := tailReturns(f.Info(), f.Body)
+	// hand-written element loops as the range loops they stand for (see rangeLoops)
+	if lb, lch := rangeLoops(f.Info(), f.Pkg.Types, f.Body, body0); lch {
+		body0, tch = lb, true
+	}
 	// first pass: how often would each helper be inlined
 	fl.dry = true
-	fl.block(f.Body)
+	fl.block(body0)
 	fl.dry = false
-	body, changed := fl.block(f.Body)
-	if !changed {
+	body, changed := fl.block(body0)
+	if !changed && !tch {
 		p.flat[f] = f
 		return f
 	}
